@@ -317,6 +317,9 @@ func genUnrankCase(t *rapid.T) unrankCase {
 		return unrankCase{l*(l-1)/2 + rapid.IntRange(-2, 2).Draw(t, "delta"), 2}
 	}
 	k := rapid.IntRange(0, 12).Draw(t, "k")
+	if rapid.IntRange(0, 5).Draw(t, "largek") == 0 {
+		k = rapid.IntRange(13, 300).Draw(t, "klarge") // many small elements: another regime of every internal quantity
+	}
 	if k == 0 {
 		return unrankCase{0, 0}
 	}
